@@ -387,6 +387,10 @@ class IrGenerator:
                     # first statement. Empty first state is used to avoid
                     # delay of one tick at start of instance.
                     new_state = ctx.first_state()
+                    # add a Nop to mark the state as used
+                    # (nothing else is added for `await true`), only the
+                    # first statement of the coroutine is special
+                    new_state.code().append(ir.Nop())
                 else:
                     new_block = ir.CodeBlock([], parent=None)
                     new_state = ir._State(new_block, new_block)
